@@ -89,9 +89,21 @@ def load(inp):
     return sound.load_score(inp['score'])
 
 
+def in_window(s):
+    """False when a relative note leaves the +-10 octave window of the implementation (C09's stated error
+    branch: the library raises IndexError there, nothing is claimed about the rendering)"""
+    try:
+        sp = sound.spec_sound(s)
+    except IndexError:
+        return False
+    return all(-120 <= p < 120 for evs in sp.values() for (p, _, _, _) in evs)
+
+
 def check_events(inp):
     s = load(inp)
     tempo = inp['tempo']
+    if not in_window(s):
+        return None
     got = sound.impl_events(s, tempo)
     exp = sound.spec_events(s, tempo)
     if got == exp:
@@ -101,6 +113,8 @@ def check_events(inp):
 
 def check_matrix(inp):
     s = load(inp)
+    if not in_window(s):
+        return None
     got = sound.impl_sound(s)
     exp = sound.spec_sound(s)
     if got == exp:
@@ -132,6 +146,9 @@ def oracle(ctx):
         except Exception:
             continue
         if not sound.well_referenced(s):
+            continue
+        if not in_window(s):
+            ctx.count('oracle', key='oow' + inp['score'], bucket='out-of-window (skipped)', nontrivial=False)
             continue
         ft = features(s)
         for name in ('events', 'matrix'):
